@@ -36,6 +36,8 @@ type Case struct {
 	// refOf: this case differs from *refOf only in its schedule, so the
 	// sequential reference computed for *refOf is valid for it (not serialised).
 	refOf *Case
+	// recordBoosted: ask the scheduler for the boosted decision points passed (not serialised).
+	recordBoosted bool
 }
 
 type FileM struct {
